@@ -30,8 +30,10 @@ func TestMain(m *testing.M) {
 			"(tcp, quic, circuit; relayed conns limited or unlimited): initial connection set (none / limited / direct / unlimited-relay / mixed / one closing at t=0), per-address "+
 			"dial scripts, a timeline of inbound connections appearing, connections closing (remote or local) and bystander-peer connections, 1-4 callers of NewStream / DialPeer / Connect "+
 			"with {allow-limited, force-direct, no-dial}, cancel instants, deadlines and dial-peer timeouts on a shared coarse time grid (equal instants race for real). Oracle = "+
-			"validity predicates over the harness' own connection history (permission, exact release instant of certain waiters, force-direct results, proxy-transport dial rule, "+
-			"Connectedness and EvtPeerConnectednessChanged against a reference model at every quiescence point, Conn.NewStream probes). Hole punching (TestHolePunch*): real "+
+			"validity predicates over the harness' own connection history (permission; a stream at once when a non-limited conn is present; exact release instant and outcome of "+
+			"every caller that is certainly waiting (shapes A: limited-only at start, B: own relay dial produced the limited conn, C: no-dial caller seen blocked at a quiescence point); "+
+			"force-direct results; proxy-transport dial rule; Connectedness and EvtPeerConnectednessChanged against a reference model at every quiescence point; Conn.NewStream probes; "+
+			"bounded termination and a clean bubble exit after a late direct conn). Hole punching (TestHolePunch*): real "+
 			"holepunch.Service on a recording host.Host wrapper around the real BasicHost; generated DCUtR dialogues on relayed / direct, inbound / outbound conns and DirectConnect "+
 			"with scripted dial outcomes and inbound direct conns. Non-trivial = a waiter that is certainly blocked sees the connection set change (or another caller return) before "+
 			"it is released, or a mixed limited/non-limited set exists when a caller starts; for hole punching: a dialogue that reaches the dial stage with relay addresses mixed in, "+
@@ -1089,14 +1091,14 @@ func (r *run) judge() {
 
 func TestSwarmSchedules(t *testing.T) {
 	name := t.Name()
-	hx.Check(t, 16000, 800000, 0, func(rt *rapid.T) {
+	hx.Check(t, 16000, 600000, 0, func(rt *rapid.T) {
 		runScenario(t, rt, name, drawScenario(rt, false))
 	})
 }
 
 func TestHostSchedules(t *testing.T) {
 	name := t.Name()
-	hx.Check(t, 8000, 300000, 0, func(rt *rapid.T) {
+	hx.Check(t, 8000, 220000, 0, func(rt *rapid.T) {
 		runScenario(t, rt, name, drawScenario(rt, true))
 	})
 }
